@@ -165,7 +165,7 @@ func TestC15Stale(t *testing.T) {
 		v, err := ReplayScenario(data, mk)
 		return v, remapProp(err, "C15")
 	}, func(rt *rapid.T) {
-		sc := &Scenario{Prop: "C15", Note: "stale-status"}
+		sc := &Scenario{Prop: "C15", Part: "stale-status", Note: "stale-status"}
 		set := GenSet(rt, SetGenOpts{AllowClass: true, MaxPhases: 3, MaxObjs: 2, PoolSize: 5})
 		for i := range set.Phases {
 			if rapid.IntRange(0, 3).Draw(rt, "forcedelegate") > 0 {
